@@ -1,7 +1,8 @@
 /-
 Driver for C01: one `Uniflow.Writer.Step` per line, answered with what the step shows.
 
-  link r | unlink r | write v | ans r n | ans r e k | ans r v k | closer r | drop r | closew
+  link r | unlink r | write v | ans r n | ans r e k | ans r v k | pop r <n | e k | v k> | deliver r k |
+  closer r | drop r | closew
 
   output:  <ret>{ d<r>:<v>}{ | <resp>}
     ret  ::= t | f | n<k> | u | skip | panic<k>
@@ -30,6 +31,14 @@ def parseStep : List String → Option Step
   | "ans" :: r :: a =>
     match r.toNat?, parseAns a with
     | some r, some a => some (.answer r a)
+    | _, _ => none
+  | "pop" :: r :: a =>
+    match r.toNat?, parseAns a with
+    | some r, some a => some (.pop r a)
+    | _, _ => none
+  | ["deliver", r, k] =>
+    match r.toNat?, k.toNat? with
+    | some r, some k => some (.deliver r k)
     | _, _ => none
   | ["closer", r] => r.toNat?.map Step.closeR
   | ["drop", r] => r.toNat?.map Step.deliverDrop
